@@ -120,6 +120,50 @@ def run(chk):
     recs, _ = vf.run_driver(binary, ["replay", p2])
     chk.selftest("replay: one expected matched id removed", any(x.get("kind") == "violation" for x in recs))
 
+    # the filter half of "exactly the transactions that matched": which transactions of a block match a bloom
+    # filter is Bloom.tla's MatchTx rule (id, paying output, spend of an output matched earlier in the block with
+    # the filter update modes).  Behaviours of Bloom.tla whose additions come first and whose MatchTx steps name
+    # distinct transactions are served as one block through both NewMerkleBlock copies on real filters of every
+    # size / hash count / tweak; every transaction the rule says matches has to be recoverable from the message.
+    import importlib.util
+    _sp = importlib.util.spec_from_file_location("prop_C39", os.path.join(os.path.dirname(__file__), "C39.py"))
+    c39 = importlib.util.module_from_spec(_sp)
+    _sp.loader.exec_module(c39)
+    bbin = vf.go_build("bloom")
+    rb = vf.tlc("Edge", "Bloom", "blk.cfg", cfg_text=c39.cfg(6 if thorough else 5, 2, emit="Emit"), workers=8, timeout=1500,
+                jvm=("-XX:ParallelGCThreads=4",))
+    vf.tlc_ok(rb, "Bloom exhaustive (block shapes)")
+    chk.add_tlc(rb, "Bloom.tla edges used as blocks (additions first, then distinct transactions)")
+
+    def block_shaped(b):
+        if b[0].get("side"):
+            return False
+        acts = [x["act"] for x in b]
+        k = len([a for a in acts if a == "Add"])
+        txs = [x["args"]["tx"] for x in b if x["act"] == "MatchTx"]
+        return acts[:k] == ["Add"] * k and len(txs) >= 2 and len(set(txs)) == len(txs) and any(x.get("must") for x in b[k:])
+    bb, stb = vf.behaviours(rb, dedupe_prefixes=True)
+    bb = [b for b in bb if block_shaped(b)]
+    if not thorough and len(bb) > 600:
+        rng.shuffle(bb)
+        bb = bb[:600]
+    chk.cov["filter_blocks"] = len(bb)
+    pb = os.path.join(vf.scratch(), "mb-blocks.jsonl")
+    vf.write_json_lines(pb, bb)
+    recs, _ = vf.run_driver(bbin, ["block", pb, "thorough" if thorough else "quick"])
+    absorb(chk, recs, "blocks served for real bloom filters: every matching transaction is recoverable")
+    fm = next(b for b in bb if sum(1 for x in b if x.get("act") == "MatchTx" and x.get("must")) >= 1)
+    bad = json.loads(json.dumps(fm))
+    for x in bad:
+        if x["act"] == "MatchTx":
+            x["must"] = True
+            x["why"] = "forced"
+    bad = [x for x in bad if x["act"] != "Add"]
+    p3 = os.path.join(vf.scratch(), "mb-bad3.jsonl")
+    vf.write_json_lines(p3, [bad])
+    recs, _ = vf.run_driver(bbin, ["block", p3, "quick"])
+    chk.selftest("block: every transaction claimed to match an empty filter", any(x.get("kind") == "violation" for x in recs))
+
     chk.assumptions += [
         "sha256d is collision free (symbolic hash terms); a replaced hash is a real hash with one bit flipped",
         "the merkle root authenticates hashes only: the message's transaction count is taken to be the block's for the "
